@@ -232,7 +232,14 @@ class GraphBuilder:
                 return self.rng.choose(cands[-k:]) if self.rng.chance(2, 3) else self.rng.choose(cands)
         d = self.rng.choose(list(dts)) if dts else "f32"
         if shape is None:
-            shape = self.rng.shape(rank=rank)
+            if getattr(self, "big", False) and (rank is None or 1 <= rank <= 3):
+                # Tensors beyond the kernels' work-splitting thresholds (a few
+                # thousand elements), with axis lengths that are not powers of two.
+                rk = rank if rank is not None else self.rng.range(1, 3)
+                dims = {1: [(2500,), (1030,), (4099,)], 2: [(50, 30), (3, 700), (30, 50), (70, 33), (1, 2049)], 3: [(2, 50, 30), (5, 7, 61), (33, 3, 21)]}[rk]
+                shape = self.rng.choose(dims)
+            else:
+                shape = self.rng.shape(rank=rank)
         v = self.new_data(d, tuple(shape), **kw)
         if pred is not None and not pred(v):
             raise Invalid("fresh value does not satisfy predicate")
